@@ -1,7 +1,7 @@
 from tools.driver import Unit
 UNITS = [
   Unit("res0_unpack", ["C02", "C01", "C13"], "lib/res0.c", enforce="res0_unpack", replace=["oggpack_read", "icount"], loops="res0.loops",
-       harness="h_res0_unpack.c", entry="h_res0_unpack", unwindset=["h_res0_unpack.0:7"], reach=3, leak=True, timeout=900, shards=8,
+       harness="h_res0_unpack.c", entry="h_res0_unpack", unwindset=["h_res0_unpack.0:7", "h_res0_unpack.1:7"], reach=3, leak=True, timeout=900, shards=8,
        assumed=["<= 6 codebooks in the harness-built setup (the range checks against the book count are exercised for every count 1..6); every field value symbolic"],
        note="residue setup: field ranges, classification book exists with dimensions and partvals <= its entries, cascade words <= 255, every stage-book slot names an existing book and transmitted non-zero slots a value book with dim >= 1; nothing leaked on reject"),
 ]
